@@ -14,6 +14,9 @@ from . import wcommon as W
 NOISE = list(" \t#@=[]<>{}().,'\"\\-+*/%|&^!~:;?$`_0123456789azAZ") + ["\x00", "\x01", "\x07", "\x0b", "\x0c", "\x1b", "\x7f", "\x85", "\xa0",
          "é", "ß", "Ω", "ж", "中", "☃", "\u200b", "\u2028", "\ufeff", "\U0001F600", "\r"]
 CORNERS = [
+    # void (padding) types where only a data type may stand: array element, constant, named field, union context
+    "void8[4] pad_array", "void1[<=7] pad_var", "void3[<2] pad_lt", "void8 NAMED_PAD = 0", "void64[1] one_pad", "truncated void8 tp", "saturated void1[2] sp",
+    "@print void8", "@print void8[2]", "@assert void3._bit_length_ == {3}", "uint8[<=void8._extent_] via_void",
     "@print (-1) ** 0.5", "@print (-8) ** (1/3)", "@assert 0 ** -1 == 1", "@print 1 % 0", "@print 1 / 0", "@print 2 ** 0.5",
     "@print 10 ** 400.5", "@print 10.0 ** 400", "@print 1e400", "@print 1e-400", "@print '\\U00110000'", "@print '\\UFFFFFFFF'",
     "@print '\\ud800'", "uint8 CH = '\\ud800'", "uint8 CH = '\\u00e9'", "@print 10 ** 5000", "uint8 BIG = 10 ** 5000",
